@@ -22,7 +22,7 @@ PROPS = {
     'C18': {'units': ['dsu', 'order', 'pphase', 'fvalid', 'iterord', 'hashord'], 'kani': []},
     'C14': {'units': ['pack', 'pack2', 'pack3', 'pubin'], 'kani': [], 'exclude': r'H_each_instances_values_have_the_length'},
     'C12': {'units': ['bits', 'chal', 'coef', 'rcair', 'prep', 'cbconn', 'lower'], 'kani': [], 'only': {'chal': r'canonical_width', 'prep': r'operand_[ac]_takes_part_in_the_witness_bus', 'lower': r'emit_bool_check'}},
-    'C15': {'units': ['shape', 'bshape', 'openin', 'hmerge', 'bprep', 'c15guard', 'pack', 'pubin'], 'kani': [], 'only': {'openin': r'per_matrix_shape_and_grouping|compute_single_reduced_opening|height_group', 'pack': r'OpenedValuesTargets::new', 'pubin': r'H_each_instances_values_have_the_length'}},
+    'C15': {'units': ['shape', 'bshape', 'openin', 'hmerge', 'bprep', 'c15guard', 'pack', 'pubin'], 'kani': [], 'only': {'openin': r'per_matrix_shape_and_grouping|compute_single_reduced_opening|height_group', 'pack': r'OpenedValuesTargets::new', 'pubin': r'H_each_instances_values_have_the_length'}, 'exclude': r'H_a_proof_without_commit_phases_is_not_refused'},
     'C13': {'units': ['sym', 'symx', 'airlay'], 'kani': []},
     'C09': {'units': ['prep', 'mult', 'pread', 'pphase', 'ptrace', 'rcair'], 'kani': [], 'exclude': r'H_the_preprocessed_row_of_a_constant_commits_its_value|H_a_built_circuit_is_never_refused'},
     'C08': {'units': ['mmcs', 'hash', 'hashb', 'mbind', 'vbatch', 'vbatchx', 'a4sched', 'a4path', 'pexec'], 'kani': [], 'only': {'pexec': r'execute\[state_assembly'}},
